@@ -67,6 +67,26 @@ def job_plan(res, kind, n, nbig):
         sites = '; '.join(f'{cnt} stores into pre-existing {k[0]} block allocated in {k[1][:90]}' for k, cnt in list(bad.items())[:3])
         race(f'{label} writes to memory shared with other threads using the same plan: {sites}', f'wset:plan:{PK[kind]}:{"factor" if any("FactorFFT" in k[1] or "base_array" in k[1] for k in bad) else "other"}')
 
+def job_plan_first(res, kind, n, nbig):
+    """the FIRST solve of a plan that was only constructed: no warm-up, so members created lazily inside the const solve() show up as stores into the shared plan
+    (initialisation of function-local statics runs under its guard and is exempt like any lock-protected store)"""
+    mod, so = load(HARNESS); m = Machine(mod, max_steps=200_000_000)
+    label = f'{PK[kind]}({n}) shared between threads: first const solve() after construction'
+    try: m.call('@h_mk', [kind, n])
+    except (Throw, UB) as e: res.inc(f'{label}: set-up failed: {e}'); return
+    x = m.alloc_doubles([fsym(f'x{i}') for i in range(2 * n + 4)], 'x'); y = m.alloc_doubles([0.0] * (2 * n + 8), 'y')
+    r, st = traced_call(m, '@h_use', [kind, n, x, y], y); res.absorb(m)
+    if st != 'ret': res.inc(f'{label}: {st}'); return
+    bad = classify(m, m.stores, {y.b})
+    sol = z3.Solver(); sol.add(z3.BoolVal(bool(bad))); c = sol.check(); res.queries += 1
+    if c == z3.unsat: res.ob(True, 'WSET', f'{label}: all {len(m.stores)} stores go to fresh blocks, stack, the output, thread_local storage or guard-protected statics')
+    else:
+        sites = '; '.join(f'{cnt} stores into pre-existing {k[0]} block allocated in {k[1][:90]}' for k, cnt in list(bad.items())[:3])
+        why = f'{label} writes to memory shared with other threads using the same plan: {sites}'
+        for tr in (300, 3000):
+            if confirm(res, PID, HARNESS, 'h_race_first', [('i32', kind), ('i32', nbig), ('i32', 8), ('i32', tr)], 'i32', 'race', ORACLES, f'wset:plan-first:{PK[kind]}', why, extra={'what': f'fresh {PK[kind]}({nbig}) first solved by 8 threads at once'}, timeout=300,
+                       suspect_is_inconclusive=(tr == 3000)): break
+
 def job_free(res, fk, n):
     mod, so = load(HARNESS); m = Machine(mod, max_steps=300_000_000)
     label = f'free function {FK[fk]} (n={n}), second call in a thread'
@@ -105,7 +125,7 @@ def job_tls(res):
         if c == z3.unsat: res.ob(True, 'IR', f'global {v[0]} carries thread_local in the IR')
         else: res.inc(f'global {v[0]} is not thread_local (the write-set jobs decide whether it is written)')
 
-JOBFNS = {'plan': job_plan, 'free': job_free, 'tls': job_tls}
+JOBFNS = {'plan_first': job_plan_first, 'plan': job_plan, 'free': job_free, 'tls': job_tls}
 
 def selftest(st):
     calls = [('h_free', [('i32', fk), ('i32', 8), ('pf64', [math.sin(i) + 0.2 for i in range(8 * 8 + 64)]), ('pf64', [0.0] * (8 * 8 + 64))], 'i32') for fk in (0, 1, 2, 3, 4, 5, 6, 7, 11, 13, 14)]
@@ -115,7 +135,8 @@ def main(tier, seed):
     q = tier == 'quick'; jobs = [('thread_local IR facts', 'tls', {}, 300)]
     plans = [(0, 8, 8), (0, 16, 1024), (0, 12, 1500), (0, 30, 2310), (0, 7, 37), (0, 43, 211), (1, 12, 3000), (1, 9, 1125), (1, 7, 37), (1, 16, 2048), (2, 12, 1500), (2, 16, 1024), (3, 12, 3000), (3, 16, 2048), (4, 5, 300)]
     if not q: plans += [(0, n, 1500) for n in (6, 10, 18, 20, 24, 36, 45, 60)] + [(0, n, 1024) for n in (32, 64)] + [(1, n, 3000) for n in (6, 10, 20, 24, 30)] + [(0, 47, 211), (0, 41, 37), (2, 30, 2310), (3, 20, 3000), (4, 8, 300)]
-    for kind, n, nbig in plans: jobs.append((f'{PK[kind]}({n})', 'plan', dict(kind=kind, n=n, nbig=nbig), 1500))
+    for kind, n, nbig in plans:
+        jobs.append((f'{PK[kind]}({n})', 'plan', dict(kind=kind, n=n, nbig=nbig), 1500)); jobs.append((f'{PK[kind]}({n}) first solve', 'plan_first', dict(kind=kind, n=n, nbig=nbig if nbig < 400 else n), 1500))
     for fk in range(len(FK)):
         for n in ((12,) if q else (8, 12, 16, 30)):
             if fk == 3 and n % 2: continue
